@@ -6,5 +6,6 @@ c=$1; prop=$2; tier=${3:-quick}
 cd /repo || exit 2
 if ! git diff --quiet; then echo "/repo dirty"; exit 2; fi
 git show "$c" | git apply -R || { echo "cannot revert $c"; exit 2; }
+mkdir -p /tmp/verif-scratch && cp /verif/KNOWN_FINDINGS.txt /tmp/verif-scratch/
 /verif/bin/verifcheck -property "$prop" -tier "$tier" -verif /tmp/verif-scratch | grep -E "^(VIOLATION|  rule=|KNOWN|C[0-9]+ )"
 git checkout -- .
